@@ -74,14 +74,38 @@ func (c *constExpr) Exit(node *Node) {
 					// In case of nil value and nil type use this hack,
 					// otherwise reflect.Call will panic on zero value.
 					in[i] = reflect.ValueOf(&param).Elem()
+					// A pointer, map, slice or func parameter takes
+					// the nil of its own type, as it does at runtime.
+					if t := paramType(fn.Type(), i); t != nil {
+						switch t.Kind() {
+						case reflect.Ptr, reflect.Map, reflect.Slice, reflect.Func, reflect.Chan:
+							in[i] = reflect.Zero(t)
+						}
+					}
 				} else {
 					in[i] = reflect.ValueOf(param)
 				}
 			}
 
 			out := fn.Call(in)
-			constNode := &ConstantNode{Value: out[0].Interface()}
+			value := out[0].Interface()
+			if value == nil {
+				patch(&NilNode{})
+				return
+			}
+			constNode := &ConstantNode{Value: value}
 			patch(constNode)
 		}
 	}
+}
+
+// paramType returns the type of the parameter the i-th argument of a call is passed for.
+func paramType(fn reflect.Type, i int) reflect.Type {
+	switch {
+	case fn.IsVariadic() && i >= fn.NumIn()-1:
+		return fn.In(fn.NumIn() - 1).Elem()
+	case i < fn.NumIn():
+		return fn.In(i)
+	}
+	return nil
 }
